@@ -128,7 +128,7 @@ func (h *Hub) RegisterRemoteSKI(ski string) {
 	// locally initiated
 	service.ConnectionStateDetail().SetState(api.ConnectionStateQueued)
 
-	h.hubReader.ServicePairingDetailUpdate(ski, service.ConnectionStateDetail())
+	h.notifyPairingDetail(ski, service.ConnectionStateDetail())
 
 	h.mdns.RequestMdnsEntries()
 }
@@ -144,7 +144,7 @@ func (h *Hub) UnregisterRemoteSKI(ski string) {
 
 	service.ConnectionStateDetail().SetState(api.ConnectionStateNone)
 
-	h.hubReader.ServicePairingDetailUpdate(ski, service.ConnectionStateDetail())
+	h.notifyPairingDetail(ski, service.ConnectionStateDetail())
 
 	// wait for a connection that is just being set up, it is either refused or registered afterwards
 	h.muxConSetup.Lock()
@@ -216,5 +216,5 @@ func (h *Hub) CancelPairingWithSKI(ski string) {
 	// a handshake message processed meanwhile may have set the service to trusted again
 	service.SetTrusted(false)
 
-	h.hubReader.ServicePairingDetailUpdate(ski, service.ConnectionStateDetail())
+	h.notifyPairingDetail(ski, service.ConnectionStateDetail())
 }
